@@ -10,6 +10,7 @@ import (
 	sdkmath "cosmossdk.io/math"
 
 	"github.com/EscanBE/evermint/v12/utils"
+	authtypes "github.com/cosmos/cosmos-sdk/x/auth/types"
 	govtypes "github.com/cosmos/cosmos-sdk/x/gov/types"
 	"github.com/ethereum/go-ethereum/common"
 	ethtypes "github.com/ethereum/go-ethereum/core/types"
@@ -67,9 +68,30 @@ func (k *Keeper) EthereumTx(goCtx context.Context, msg *evmtypes.MsgEthereumTx) 
 		labels = append(labels, telemetry.NewLabel("execution", "call"))
 	}
 
+	senderPaidTheFee := k.IsSenderPaidTxFeeInAnteHandle(ctx)
+
 	response, err := k.ApplyTransaction(ctx, ethTx)
 	if err != nil {
 		return nil, errorsmod.Wrap(err, "failed to apply transaction")
+	}
+
+	if senderPaidTheFee && ethTx.Gas() > response.GasUsed {
+		// The ante handler moved the fee for the whole gas limit to the fee collector and the state transition
+		// handed the price of the unused gas back to the sender as newly created coins:
+		// take the same amount out of the collected fee, so the transaction does not create coins.
+		unusedGasFee := new(big.Int).Mul(
+			new(big.Int).SetUint64(ethTx.Gas()-response.GasUsed),
+			evmutils.EthTxEffectiveGasPrice(ethTx, k.feeMarketKeeper.GetBaseFee(ctx)),
+		)
+		if unusedGasFee.Sign() > 0 {
+			coins := sdk.NewCoins(sdk.NewCoin(k.GetParams(ctx).EvmDenom, sdkmath.NewIntFromBigInt(unusedGasFee)))
+			if err := k.bankKeeper.SendCoinsFromModuleToModule(ctx, authtypes.FeeCollectorName, evmtypes.ModuleName, coins); err != nil {
+				return nil, errorsmod.Wrap(err, "failed to take the refunded fee back from the fee collector")
+			}
+			if err := k.bankKeeper.BurnCoins(ctx, evmtypes.ModuleName, coins); err != nil {
+				return nil, errorsmod.Wrap(err, "failed to burn the refunded fee")
+			}
+		}
 	}
 
 	defer func() {
